@@ -170,7 +170,9 @@ class SplitSingleDim(Contract):
                 return False
             for j in range(self.dim):
                 want = kids[1 - i] if j == self.d else pt.items[j]
-                if kt.items[j] is not want:
+                got = kt.items[j]
+                # the pre-state snapshot holds clones: objects are identified by their name across snapshots
+                if not (got is want or (isinstance(got, Obj) and isinstance(want, Obj) and got.name == want.name)):
                     return False
         return True
 
